@@ -12,7 +12,7 @@ import (
 // C02 — request/response correlation (structural clauses).
 
 func init() {
-	pats := append(codecPatterns(), "./pkg/stream/http", "./pkg/network", "./pkg/proxy", "./pkg/stream", "./pkg/stream/http2")
+	pats := append(codecPatterns(), "./pkg/stream/http", "./pkg/network", "./pkg/proxy", "./pkg/stream", "./pkg/stream/http2", "./pkg/filter/stream/mirror")
 	register(&PropSpec{
 		ID:       "C02",
 		Patterns: pats,
